@@ -25,10 +25,11 @@ func TestC14_Instances(t *testing.T) {
 			rapid.Check(t, func(t *rapid.T) {
 				shared := map[string]bool{} // classes of the whole history
 				var ms []*machine
+				keepAll := &keptSet{} // slices returned by any instance; verified after every call on every instance
 				var log []string
 				obtain := func(c ctor) *machine {
 					m := &machine{t: t, si: si, c: c, h: c.new(), state: append([]byte{}, si.iv...), concatOK: true,
-						classes: shared, tag: fmt.Sprintf("#%d", len(ms))}
+						classes: shared, tag: fmt.Sprintf("#%d", len(ms)), keep: keepAll}
 					ms = append(ms, m)
 					log = append(log, fmt.Sprintf("#%d=%s()", len(ms)-1, c.name))
 					return m
@@ -59,12 +60,14 @@ func TestC14_Instances(t *testing.T) {
 					}
 				}
 				t.Repeat(map[string]func(*rapid.T){
-					"Write":    act("Write", func(m *machine) { m.write() }),
-					"Write2":   act("Write", func(m *machine) { m.write() }),
-					"Sum":      act("Sum", func(m *machine) { m.sum() }),
-					"Reset":    act("Reset", func(m *machine) { m.reset() }),
-					"State":    act("State", func(m *machine) { m.getState() }),
-					"SetState": act("SetState", func(m *machine) { m.setState() }),
+					"Write":      act("Write", func(m *machine) { m.write() }),
+					"Write2":     act("Write", func(m *machine) { m.write() }),
+					"Sum":        act("Sum", func(m *machine) { m.sum() }),
+					"Reset":      act("Reset", func(m *machine) { m.reset() }),
+					"State":      act("State", func(m *machine) { m.getState() }),
+					"SetState":   act("SetState", func(m *machine) { m.setState() }),
+					"RefusedMid": act("RefusedMid", func(m *machine) { m.refusedMid() }),
+					"Scribble":   act("Scribble", func(m *machine) { m.scribbleKept() }),
 					"New": func(*rapid.T) {
 						if len(ms) >= 4 {
 							t.Skip("enough instances")
@@ -93,7 +96,8 @@ func TestC14_Instances(t *testing.T) {
 				}
 				var cl []string
 				for k := range shared {
-					if strings.HasPrefix(k, "instances:") || strings.HasPrefix(k, "op:") {
+					if strings.HasPrefix(k, "instances:") || strings.HasPrefix(k, "op:") || strings.HasPrefix(k, "refused_write") ||
+						strings.HasPrefix(k, "sum_nil_kept") || strings.HasPrefix(k, "returned_scribbled") {
 						cl = append(cl, k)
 					}
 				}
